@@ -607,7 +607,8 @@ func main() {
 			if fmt.Sprint(res) != fmt.Sprint(ref) {
 				c.Failf("merge-order", "result depends on map iteration order: sorted order gives %v | %s", ref, desc)
 			}
-			area := 0.0
+			var area uint64 // in tiles of the cover zoom Z (exact)
+			enumerate := Z <= 4 // deep covers: containment and exact area instead of enumerating the covered tiles
 			cover := map[maptile.Tile]bool{}
 			merged := false
 			for i, t := range res {
@@ -621,16 +622,18 @@ func main() {
 				if t.Z < Z {
 					merged = true
 				}
-				area += math.Pow(4, -float64(t.Z))
+				area += uint64(1) << (2 * uint(Z-t.Z))
 				for j, u := range res {
 					if i != j && t.Z <= u.Z && t.Contains(u) && (mode == 0 || mode == 4) {
 						c.Failf("merge-nested", "result tiles %v and %v overlap | %s", t, u, desc)
 					}
 				}
-				lo, hi := t.Range(Z)
-				for x := lo.X; x <= hi.X; x++ {
-					for y := lo.Y; y <= hi.Y; y++ {
-						cover[maptile.New(x, y, Z)] = true
+				if enumerate {
+					lo, hi := t.Range(Z)
+					for x := lo.X; x <= hi.X; x++ {
+						for y := lo.Y; y <= hi.Y; y++ {
+							cover[maptile.New(x, y, Z)] = true
+						}
 					}
 				}
 				if t.Z > min {
@@ -648,13 +651,21 @@ func main() {
 			inSet := map[maptile.Tile]bool{}
 			for _, t := range in {
 				inSet[t] = true
-				if !cover[t] {
+				covered := cover[t]
+				if !enumerate {
+					for _, u := range res {
+						if u.Z <= t.Z && u.Contains(t) {
+							covered = true
+						}
+					}
+				}
+				if !covered {
 					c.Failf("merge-lost", "input tile %v is not covered by the result | %s", t, desc)
 				}
 			}
 			if mode == 0 || mode == 4 {
-				if want := float64(len(in)) * math.Pow(4, -float64(Z)); math.Abs(area-want) > 1e-12 {
-					c.Failf("merge-area", "result area %v != input area %v | %s", area, want, desc)
+				if want := uint64(len(in)); area != want {
+					c.Failf("merge-area", "result area %d != input area %d (in tiles of the cover zoom) | %s", area, want, desc)
 				}
 				for t := range cover {
 					if !inSet[t] {
@@ -682,6 +693,21 @@ func main() {
 	r.States += st.Execs
 	r.Transitions += st.Points
 	r.Traces += st.Execs
+	// the shallow end: covers at zoom 0 and 1, and a deep one (zoom 22 block) where tile numbers are large
+	for _, sm := range []struct {
+		name string
+		blk  []maptile.Tile
+		z    maptile.Zoom
+	}{
+		{"merge-zoom0", block(0, 0, 0, 1, 1), 0},
+		{"merge-zoom1", block(1, 0, 0, 2, 2), 1},
+		{"merge-zoom22", append(block(22, 1<<22-4, 1<<21, 2, 2), block(22, 1<<22-2, 1<<21, 2, 2)...), 22},
+	} {
+		st = r.ExploreSharded(sm.name, fmt.Sprintf("all subsets of a %d-tile block at zoom %d x target zoom 0..%d x MergeUp / MergeUpPartial(1..4), sorted / reversed / rotated order", len(sm.blk), sm.z, sm.z), mc.Opts{MaxDev: -1}, 4, mergeDriver(sm.blk, sm.z, false))
+		r.States += st.Execs
+		r.Transitions += st.Points
+		r.Traces += st.Execs
+	}
 	if !r.Quick() {
 		st = r.ExploreSharded("merge-z3", "all subsets of three zoom-3 quads (12 tiles) x target zoom 0..3 x modes, sorted / reversed / rotated order", mc.Opts{MaxDev: -1}, 16,
 			mergeDriver(append(append(block(3, 2, 2, 2, 2), block(3, 4, 2, 2, 2)...), block(3, 2, 4, 2, 2)...), 3, false))
